@@ -25,9 +25,11 @@ static inline uint64_t vrt_next(vrt_rng *r)
 }
 static inline void vrt_rng_init(vrt_rng *r, uint64_t seed, uint64_t stream)
 {
+    /* hash the seed so that neighbouring seeds do not give shifted copies of
+     * one stream */
     r->s = seed * 0x9e3779b97f4a7c15ULL + stream * 0xd1342543de82ef95ULL + 1;
-    vrt_next(r);
-    vrt_next(r);
+    r->s = vrt_next(r) ^ (seed << 17);
+    r->s = vrt_next(r);
 }
 static inline uint64_t vrt_range(vrt_rng *r, uint64_t n)
 {
